@@ -736,6 +736,6 @@ def write_document(grids, choices=(), eol='\n', final_newline=True):
     return w.document(grids, final_newline), w.p
 
 
-def write_scalar(m, ver='3.0', choices=()):
-    w = Writer(Plan(choices))
+def write_scalar(m, ver='3.0', choices=(), eol='\n'):
+    w = Writer(Plan(choices), eol)
     return w.value(m, ver), w.p
